@@ -35,7 +35,34 @@ class _Prim(Ty):
 
 INT = _Prim('Int', z3.IntSort)
 BOOL = _Prim('Bool', z3.BoolSort)
-STR = _Prim('Str', z3.StringSort)                       # code-point strings (z3/cvc5 string theory)
+OPAQUE = [False]      # while set, Str is an uninterpreted sort: string operations are uninterpreted functions and the
+                      # solvers' string theory is not involved at all (used when only equality of strings matters)
+
+
+class _StrPrim(_Prim):
+    def sort(self):
+        if OPAQUE[0]:
+            if 'OStr' not in _cache:
+                _cache['OStr'] = z3.DeclareSort('OStr')
+            return _cache['OStr']
+        return _Prim.sort(self)
+
+
+STR = _StrPrim('Str', z3.StringSort)                    # code-point strings (z3/cvc5 string theory)
+_strlits = {}
+
+
+def strlit(s):
+    """a string literal of sort Str (theory value, or a distinct constant when Str is opaque)"""
+    if not OPAQUE[0]:
+        return z3.StringVal(s)
+    if s not in _strlits:
+        _strlits[s] = z3.Const('ostr!' + s, STR.sort())
+    return _strlits[s]
+
+
+def strlit_facts():
+    return [z3.Distinct(*_strlits.values())] if len(_strlits) > 1 else []
 ATOM = _Prim('Atom', lambda: z3.DeclareSort('Atom'))     # strings used only as opaque names
 BYTES = _Prim('Bytes', lambda: z3.SeqSort(z3.BitVecSort(8)))
 REAL = _Prim('Real', z3.RealSort)
@@ -210,4 +237,4 @@ def atom(s):
 
 
 def atom_facts():
-    return [z3.Distinct(*_atoms.values())] if len(_atoms) > 1 else []
+    return ([z3.Distinct(*_atoms.values())] if len(_atoms) > 1 else []) + strlit_facts()
